@@ -19,9 +19,10 @@ import (
 //   VERIF_REPLAY    path of an IR case to replay (TestReplay)
 
 type failKeeper struct {
-	mu   sync.Mutex
-	best *Case
-	msg  string
+	mu     sync.Mutex
+	best   *Case
+	msg    string
+	clause string
 }
 
 func (k *failKeeper) offer(c *Case, msg string) {
@@ -31,6 +32,15 @@ func (k *failKeeper) offer(c *Case, msg string) {
 		k.best = c.Clone()
 		k.msg = msg
 	}
+}
+
+func (k *failKeeper) offerF(c *Case, f *Failure) {
+	k.offer(c, f.Error())
+	k.mu.Lock()
+	if k.msg == f.Error() {
+		k.clause = f.Clause
+	}
+	k.mu.Unlock()
 }
 
 func TestProp(t *testing.T) {
@@ -51,6 +61,18 @@ func TestProp(t *testing.T) {
 			}
 		}
 		if path := os.Getenv("VERIF_FAILOUT"); path != "" && fk.best != nil && t.Failed() {
+			// IR-level minimisation on top of rapid's shrinking
+			if fk.clause != "" && fk.best.Graph == nil {
+				clause := fk.clause
+				mst := NewStats(id)
+				min := MinimizeCase(fk.best, func(c *Case) bool {
+					f := p.Check(c, mst)
+					return f != nil && f.Clause == clause
+				}, 400)
+				if f := p.Check(min, mst); f != nil {
+					fk.best, fk.msg = min, f.Error()
+				}
+			}
 			fk.best.Prop = id
 			fk.best.Note = fk.msg
 			os.WriteFile(path, fk.best.Pretty(), 0o644)
@@ -70,7 +92,7 @@ func TestProp(t *testing.T) {
 		c := p.Gen(rt, thorough)
 		c.Prop = id
 		if f := p.Check(c, st); f != nil {
-			fk.offer(c, f.Error())
+			fk.offerF(c, f)
 			rt.Fatalf("%s violated: %s\ncase: %s", id, f.Error(), c.Short())
 		}
 	})
